@@ -81,6 +81,13 @@ Section CKD.
     apply IH; [|assumption]. apply (ckd_priv_ok k i c E).
   Qed.
 
+  (* paths compose: m/p/q is (m/p)/q *)
+  Theorem derive_app p q : forall k, derive k (p ++ q) = bind (derive k p) (fun c => derive c q).
+  Proof.
+    induction p as [|i p IH]; intro k; [reflexivity|].
+    cbn [app C06.derive]. destruct (ckd k i) as [c|e]; cbn [bind]; [apply IH | reflexivity].
+  Qed.
+
   (* hardened derivation from a public key is refused *)
   Theorem ckd_pub_hardened_refused k i : HARDENED <= i -> ckd_pub k i = Err EIndex.
   Proof. intro H. unfold C06.ckd_pub. destruct (N.leb_spec HARDENED i); [reflexivity | lia]. Qed.
